@@ -287,11 +287,11 @@ def merge_counts(dst, src):
 
 # ------------------------------------------------------------------ generate -> replay pipeline
 def gen_and_replay(name, module, constants, props, seed, invariants=(), workers=12, timeout=1500,
-                   tag="CASE", xmx="8g", harness_args=(), constraints=(), simulate=None, view=None, depth=None):
+                   tag="CASE", xmx="8g", harness_args=(), constraints=(), simulate=None, view=None, depth=None, env_extra=None):
     """TLC enumerates cases with expected values (one PrintT line each); the harness replays them
     into geo.  Returns (tlc result dict, number of cases, mismatches, harness summary)."""
     res = run_tlc(name, module, dict(constants=constants, invariants=invariants, constraints=constraints, view=view),
-                  workers=workers, timeout=timeout, xmx=xmx, simulate=simulate, seed=seed if simulate else None, depth=depth)
+                  workers=workers, timeout=timeout, xmx=xmx, simulate=simulate, seed=seed if simulate else None, depth=depth, env_extra=env_extra)
     tlc_ok_or_die(res)
     cases = os.path.join(res["wd"], "cases.ndjson")
     n = extract_tagged(res["out"], tag, cases)
@@ -417,7 +417,7 @@ def simple_check(pid, tier, seed, t0, runs, rule, assume, level="model_checking"
         res, n, mm, summ = gen_and_replay("%s_%s" % (pid, r["name"]), r["module"], r["constants"], [pid], seed,
                                           invariants=r.get("invariants", ()), constraints=r.get("constraints", ()),
                                           simulate=r.get("simulate"), depth=r.get("depth"), workers=r.get("workers", 12),
-                                          timeout=r.get("timeout", 1500), view=r.get("view"))
+                                          timeout=r.get("timeout", 1500), view=r.get("view"), env_extra=r.get("env"))
         results.append(res)
         ncases += n
         mism += mm
